@@ -296,7 +296,16 @@ func (c *SimClient) connect() {
 	ctx := peer.NewContext(context.Background(), &peer.Peer{Addr: &net.TCPAddr{IP: net.IPv4(10, 0, 0, byte(1+c.Idx)), Port: 1000 + c.Conn}})
 	st := &grpcStream{c: c, conn: c.Conn, ctx: ctx, in: c.in}
 	srv := &grpcNodeServer{}
-	simrt.Go(fmt.Sprintf("client%d.MessageLoop", c.Idx), func() { srv.MessageLoop(st) })
+	conn := c.Conn
+	simrt.Go(fmt.Sprintf("client%d.MessageLoop", c.Idx), func() {
+		srv.MessageLoop(st)
+		// the handler returned: gRPC closes the stream, the client sees the end of it
+		if c.Conn == conn && c.Connected {
+			c.W.rt.Logf("server closed c%d", c.Idx)
+			simrt.Probe("client.stream_closed_by_server")
+			c.disconnect()
+		}
+	})
 }
 
 // disconnect drops the connection abruptly.
